@@ -31,7 +31,8 @@
  "props": ["C14", "C03"],
  "level": "U/iter",
  "tier": "wip",
- "tier_after_hooks": "quick",
+ "tier_after_hooks": "thorough",
+ "timeout": 900,
  "harness": "h_add_revoke",
  "loop_contracts": true,
  "includes": ["debugfs", "lib/ss", "e2fsck"],
